@@ -226,6 +226,12 @@ def run_unit(ctx, unit):
     # noisy stream: only delivery independence and sanity of positions
     if unit["noise"] is not None:
         nd = unit["noise"]
+        # things a file may start with and a reader might be tempted to treat specially (byte-order marks, a #! line, NUL):
+        # for jawk they are ordinary noise bytes, on stdin and in a file alike
+        hd = (b"", b"", b"\xef\xbb\xbf", b"\xff\xfe", b"\xfe\xff", b"#!jawk\n", b"\x00", b"\xef\xbb\xbf\n")[(len(nd) + len(data)) % 8]
+        if hd:
+            nd = hd + nd
+            st.count("noisy_streams_with_file_header_bytes")
         cs = [core.Case(["--on-error", "stdout"] + args, nd), core.Case(["--on-error", "stdout"] + args, nd, rsched=[1], rintr=[3, 4, 11]),
               core.Case(["--on-error", "stdout"] + args + ["@D@/n.json"], b"", files=[("n.json", nd)])]
         o3 = ctx.drv.run_many(cs)
@@ -241,6 +247,11 @@ def run_unit(ctx, unit):
         b = [re.sub(rb', "n": "[^"]*"', b"", l) for l in strip(o3[2].stdout)]
         if a != b:
             st.violation("stdin-vs-file-noisy", "noisy stream: file and stdin rows differ", unit, {"stdin": a[:4], "file": b[:4]})
+            return
+        nerr = lambda s: sum(1 for l in s.split(b"\n") if l.startswith(b"error:"))
+        if nerr(o3[0].stdout) != nerr(o3[2].stdout):
+            st.violation("stdin-vs-file-noisy-errors", "noisy stream: %d error lines from stdin, %d from the file" % (nerr(o3[0].stdout), nerr(o3[2].stdout)),
+                         unit, {"stdin": o3[0].stdout[:600], "file": o3[2].stdout[:600]})
             return
         st.count("noisy_streams")
 
